@@ -11,6 +11,7 @@ from ..model import _lookup_def, valuations
 from ..terms import EV, show, subterms
 from .common import emissions, mk_finding, summary
 from .io import _defaults
+from .linear import normalise_cmp
 from .scan import callback_effects
 
 CSV = "rxsci/container/csv.py"
@@ -368,6 +369,193 @@ def rule_csv_merge(ctx: Ctx) -> RuleResult:
                         "CS-2", "%s::merge_escape_parts{join}" % CSV, m.where(e.node), "the pieces of a quoted field must be re-joined with the separator; joined with %s" % show(e.args[0][1])))
     if n_iter < 5:
         raise AnalysisError("merge_escape_parts: fewer than 5 loop-body paths found (%d)" % n_iter)
+    r.require_instances(1)
+    return r
+
+
+class _IndexErr(Exception):
+    pass
+
+
+# abstract pieces of a split line: (length class, first char is '"', last char is '"', the char before the last is the escape character)
+_PIECES = [("E", None, None, None), ("Q", True, True, None), ("C", False, False, None)] + \
+          [("L", a, b, c) for a in (True, False) for b in (True, False) for c in (True, False)]
+
+
+def _piece_name(c):
+    if c[0] == "E":
+        return "the empty piece"
+    if c[0] == "Q":
+        return "the piece '\"'"
+    if c[0] == "C":
+        return "a one-character piece other than '\"'"
+    return "a piece of two or more characters that %s with '\"', %s%s" % (
+        "starts" if c[1] else "does not start", "ends with '\"'" if c[2] else "does not end with '\"'",
+        (" preceded by the escape character" if c[3] else " not preceded by the escape character") if c[2] else "")
+
+
+def _merge_spec(c, is_open):
+    """what the merger must do with a piece: 'emit' it as a field, 'open' a quoted field with it, 'continue' the open field,
+    'close' the open field with it"""
+    kind, first, last, esc = c
+    closes = kind == "Q" or (kind == "L" and last and not esc)
+    if is_open:
+        return "close" if closes else "continue"
+    if kind == "Q":
+        return "open"
+    if kind == "L" and first:
+        return "emit" if closes else "open"
+    return "emit"
+
+
+def _piece_atom(test, T, c):
+    """truth of the test on the abstract piece c; None if the test does not concern the piece; _IndexErr if it indexes
+    beyond the piece; AnalysisError for a test on the piece the table does not know"""
+    from .seq import _no_epoch
+    test = _no_epoch(test)
+    if not any(x == T for x in subterms(test)):
+        return None
+    if test[0] == "not":
+        v = _piece_atom(test[1], T, c)
+        return None if v is None else (not v)
+    kind, first, last, esc = c
+    QUOTE = ("const", '"')
+    if test[0] == "cmp" and test[1] in ("Eq", "NotEq"):
+        a, b = test[2], test[3]
+        for x, y in ((a, b), (b, a)):
+            val = None
+            if x == T and y == QUOTE:
+                val = kind == "Q"
+            elif x == T and y == ("const", ""):
+                val = kind == "E"
+            elif x[0] == "sub" and x[1] == T and x[2][0] == "const" and x[2][1] in (0, -1, -2):
+                k = x[2][1]
+                if kind == "E" or (k == -2 and kind != "L"):
+                    raise _IndexErr()
+                if y == QUOTE and k in (0, -1):
+                    val = (kind == "Q") or (kind == "L" and (first if k == 0 else last))
+                elif k == -2 and y[0] in ("arg", "param", "free") :
+                    val = bool(esc)
+                    if not last:
+                        # the character before a last character that is not a quote: either value; the code may not depend on it
+                        val = bool(esc)
+            if val is not None:
+                return val if test[1] == "Eq" else (not val)
+    if test[0] == "cmp":
+        nf = normalise_cmp(test, True)
+        if nf is not None:
+            op, co, k = nf
+            co = dict(co)
+            ln = ("call", ("builtin", "len"), (T,))
+            if list(co) == [ln] and abs(co[ln]) == 1:
+                sgn = 1 if co[ln] > 0 else -1
+                lens = {"E": [0], "Q": [1], "C": [1], "L": [2, 3, 50]}[kind]
+                vals = set()
+                for n in lens:
+                    v = sgn * n + k
+                    vals.add({"Eq": v == 0, "NotEq": v != 0, "Gt": v > 0, "GtE": v >= 0, "Lt": v < 0, "LtE": v <= 0}[op])
+                if len(vals) == 1:
+                    return vals.pop()
+                raise AnalysisError("merge_escape_parts: the length test %s separates pieces of two or more characters; the classification table "
+                                    "does not know such pieces apart" % show(test))
+    if test[0] == "mcall" and test[1] == T and test[2] in ("startswith", "endswith") and tuple(test[3]) == (QUOTE,):
+        if kind == "E":
+            return False
+        return (kind == "Q") or (kind == "L" and (first if test[2] == "startswith" else last))
+    if test == T or test == ("call", ("builtin", "len"), (T,)):
+        return kind != "E"
+    raise AnalysisError("merge_escape_parts: the test %s on a piece of the split line is not one the classification table knows" % show(test))
+
+
+def rule_csv_classify(ctx: Ctx) -> RuleResult:
+    """CS-3: the quoted-field merger is the inverse of the writer's quoting: what it does with a piece of the split line
+    (emit it as a field, open a quoted field, continue it, close it) is decided exactly by whether a field is open and by
+    the piece's length class, first and last characters and the escape character before a closing quote.  Every loop-body
+    path is matched against the 11 abstract pieces x {open, closed}; a path that can be taken by a piece must do what the
+    table says for it, and may not index beyond the piece."""
+    r = RuleResult("CS-3", "CSV quoted-field merger: per piece class (empty, '\"', one char, 2+ chars by first/last/escaped) and open/closed state the "
+                           "merger emits, opens, continues or closes exactly as the inverse of the writer's quoting requires; no index beyond a piece")
+    m, fn = ctx.function(CSV, "merge_escape_parts")
+    r.instances += 1
+    covered = set()
+    seen = set()
+    for p in ctx.fn_paths(m, fn, max_iter=2):
+        r.paths += 1
+        its = [e for e in p.trace if e.k == "loopiter"]
+        if not its or p.outcome != "return" or p.value is None:
+            continue
+        OUT = p.value
+        is_open = False
+        for it in its:
+            T = it.var
+            pos = p.trace.index(it)
+            end = next((k for k in range(pos + 1, len(p.trace)) if p.trace[k].k in ("loopexit", "loopiter")), len(p.trace))
+            body = p.trace[pos + 1:end]
+            decs = [e for e in body if e.k == "decision"]
+            quote_known = any(e.test[0] == "cmp" and e.test[1] == "Eq" and {e.test[2], e.test[3]} == {T, ("const", '"')} and e.outcome for e in decs)
+
+            def is_piece(x):
+                return x == T or (quote_known and x == ("const", '"'))
+            joins = [e for e in body if e.k == "mutate" and e.method == "append" and e.args and e.args[0][0] == "mcall" and e.args[0][2] == "join"]
+            opens = [e for e in body if e.k == "assign" and e.value[0] == "list" and any(is_piece(x) for x in e.value[1:])]
+            apps = [e for e in body if e.k == "mutate" and e.method == "append" and e.args and is_piece(e.args[0])]
+            to_out = [e for e in apps if e.base == OUT]
+            if joins and apps and not opens:
+                act = "close"
+            elif opens and not joins and not apps:
+                act = "open"
+            elif apps and len(to_out) == len(apps) and not joins and not opens:
+                act = "emit"
+            elif apps and not to_out and not joins and not opens:
+                act = "continue"
+            else:
+                act = "other (%s)" % ", ".join(e.brief() for e in joins + opens + apps) if (joins or opens or apps) else "nothing"
+            if OUT == ("list",) and any(e.base == OUT for e in apps) and is_open and act == "emit":
+                # an open field kept in an initially empty list cannot be told from the output list by its term
+                raise AnalysisError("merge_escape_parts: the open quoted field and the output list are both built from []; CS-3 cannot tell them apart")
+            sig = (is_open, tuple((show(e.test).replace(show(T), "piece"), e.outcome) for e in decs), act)
+            first_time = sig not in seen
+            seen.add(sig)
+            for c in _PIECES:
+                ok_class = True
+                try:
+                    for e in decs:
+                        v = _piece_atom(e.test, T, c)
+                        if v is not None and v != e.outcome:
+                            ok_class = False
+                            break
+                except _IndexErr:
+                    if first_time:
+                        r.ob(False, lambda c=c, e=e, is_open=is_open: Finding(
+                            "CS-3", "%s::merge_escape_parts{index}" % CSV, m.where(e.node),
+                            "with %s (%s) the test '%s' indexes beyond the piece: IndexError, the whole line is rejected although it is a valid row" % (
+                                _piece_name(c), "a quoted field is open" if is_open else "no quoted field open", show(e.test).replace(show(T), "piece")), trace_of(p)))
+                    continue
+                if not ok_class:
+                    continue
+                covered.add((c, is_open))
+                if not first_time:
+                    continue
+                want = _merge_spec(c, is_open)
+                r.groups.add((c, is_open, act))
+                r.ob(act == want, lambda c=c, act=act, want=want, is_open=is_open, it=it, decs=decs: Finding(
+                    "CS-3", "%s::merge_escape_parts{classify}" % CSV, m.where(decs[-1].node if decs else it.node),
+                    "%s, while %s, must %s; on the path [%s] the merger does: %s" % (
+                        _piece_name(c), "a quoted field is open" if is_open else "no quoted field is open",
+                        {"emit": "be emitted as a field of its own", "open": "open a quoted field", "continue": "be added to the open field",
+                         "close": "be added to the open field and close it"}[want],
+                        "; ".join(e.brief() for e in decs).replace(show(T), "piece"), act), trace_of(p)))
+            # state after this iteration, as the table defines it
+            if act == "open":
+                is_open = True
+            elif act == "close":
+                is_open = False
+            elif act not in ("emit", "continue"):
+                break
+    missing = [(c, o) for c in _PIECES for o in (False, True) if (c, o) not in covered]
+    # (L, first, not last, esc) and (L, first, not last, not esc) may be indistinguishable for the code: that is fine, both are covered when any is
+    if missing and not r.findings:
+        raise AnalysisError("merge_escape_parts: no loop-body path found for %s (%s)" % (_piece_name(missing[0][0]), "open" if missing[0][1] else "closed"))
     r.require_instances(1)
     return r
 
@@ -735,6 +923,33 @@ def _resolve_attr(ctx, m, node):
 PQ = "rxsci/container/parquet.py"
 
 
+def _disposal_flags(m, fn):
+    """names of the local flags of fn that start False and are set True only by a nested function handed to Disposable(...)"""
+    out = set()
+    init = {}
+    for s in fn.body:
+        if isinstance(s, ast.Assign) and len(s.targets) == 1 and isinstance(s.targets[0], ast.Name) and isinstance(s.value, ast.Constant):
+            init.setdefault(s.targets[0].id, []).append(s.value.value)
+    disposers = set()
+    for n in ast.walk(fn):
+        if isinstance(n, ast.Call) and (dotted_name(n.func) or "").split(".")[-1] == "Disposable" and n.args and isinstance(n.args[0], ast.Name):
+            disposers.add(n.args[0].id)
+    for g in fn.body:
+        if isinstance(g, ast.FunctionDef) and g.name in disposers:
+            nl = {x for s in g.body if isinstance(s, ast.Nonlocal) for x in s.names}
+            for s in g.body:
+                if isinstance(s, ast.Assign) and len(s.targets) == 1 and isinstance(s.targets[0], ast.Name) and s.targets[0].id in nl \
+                        and isinstance(s.value, ast.Constant) and s.value.value is True and init.get(s.targets[0].id) == [False]:
+                    out.add(s.targets[0].id)
+    # no other function rebinds the flag
+    for g in ast.walk(fn):
+        if isinstance(g, ast.FunctionDef) and g is not fn and g.name not in disposers:
+            for s in ast.walk(g):
+                if isinstance(s, ast.Nonlocal):
+                    out -= set(s.names)
+    return out
+
+
 def rule_pu2(ctx: Ctx) -> RuleResult:
     r = RuleResult("PU-2", "parquet: the record builder mapped over batches carries no mutable free state into its result; stage order; every row before completion")
     m = ctx.program.module(PQ)
@@ -888,6 +1103,23 @@ def rule_pu2(ctx: Ctx) -> RuleResult:
             r.ob(ok, lambda: Finding("PU-2", "%s::load_from_file._load_file{rows}" % PQ, ml.where(fl),
                                      "every row of every batch must be emitted exactly once: the inner loop must run over the rows of the current batch and emit "
                                      "its loop variable; emissions on this path: %s" % summary(p), trace_of(p)))
+        if broke:
+            # the batch loop may be left early only because the subscriber disposed
+            flags = _disposal_flags(ml, ml.enclosing_function(fl) or fl)
+            tests = []
+            for e in p.trace:
+                if e.k != "decision":
+                    continue
+                tt, pol = e.test, e.outcome
+                while tt[0] == "not":
+                    tt, pol = tt[1], not pol
+                if tt[0] == "free":
+                    tests.append((tt[1], pol))
+            ok = any(n in flags and pol for n, pol in tests)
+            r.ob(ok, lambda p=p, tests=tests, flags=flags: Finding(
+                "PU-2", "%s::load_from_file._load_file{early-exit}" % PQ, ml.where(fl),
+                "the loader leaves the batch loop before the last batch on a path where the subscriber has not disposed (tests on this path: %s; disposal "
+                "flags: %s): the remaining batches are never emitted" % (tests, sorted(flags)), trace_of(p)))
         if not broke:
             ok = len(comps) == 1 and ems[-1] is comps[0]
             r.ob(ok, lambda: Finding("PU-2", "%s::load_from_file._load_file{completion}" % PQ, ml.where(fl),
